@@ -235,6 +235,10 @@ def show(t, depth=0):
         if t[2] == (((), Fraction(1)),):
             return '[' + n + ']'
         return '[(%s) / (%s)]' % (n, ' + '.join(mono(m, c) for m, c in t[2]))
+    if k == 'copy':
+        return '%scopy(%s)' % ('deep' if t[1] == 'deep' else '', show(t[2], d))
+    if k == 'mut':
+        return '%s.%s!(%s)' % (show(t[1], d), t[2], ', '.join(show(x, d) for x in t[3]))
     if k == 'polyatom':
         return '{%s}' % show(t[1], d)
     if k == 'pow':
